@@ -694,6 +694,9 @@ class Function(ValueNode):
             other.parameters = self.parameters
 
     def replace_child(self, current_child, new_child):
+        if not isinstance(new_child, NodeBase):
+            # wrap non-node values inside `Parameter` here so that children and parameters hold the same node
+            new_child = Parameter(new_child)
         NodeBase.replace_child(self, current_child, new_child)
         self._parameters = [_p if _p is not current_child else new_child for _p in self._parameters]
 
